@@ -27,6 +27,7 @@
     (`checked_work_accounted`, `checked_work_bounded_partial`).
 -/
 import Sbepp.Lemmas.CheckedReads
+import Sbepp.Lemmas.CheckedTie
 
 namespace Sbepp.Properties.C06
 open Sbepp Sbepp.Checked Sbepp.Spec.CheckedSize
@@ -248,5 +249,75 @@ theorem checked_work_bounded_full_false : ¬ C06_work_bounded_full := by
   have := h .little loopMsg loopBuf 4
   revert this
   decide +kernel
+
+/-! ### the same theorems about the member functions as sbepp.hpp states them now
+
+`Sbepp.Extracted.Checked` is regenerated from the text of
+`sbepp::detail::size_bytes_checked_visitor` and `sbepp::size_bytes_checked` on
+every run (`extract/methods_checked.py`); `Lemmas/CheckedTie.lean` proves each
+generated definition equal to the hand-written member function and the model
+`runMsg` / `runGroup` equal to the hand model of the generated code and the cursor
+(`Skel`) around those member functions.  `checkedMsg` / `checkedGroup` below are
+that skeleton around the EXTRACTED visitor; the theorems above are restated for
+them.  (The generated `visit_children`, the cursor accessors and `cursor_range`
+remain hand-modelled and tied by the differential runs of the check.) -/
+
+/-- `sbepp::size_bytes_checked(message_view, n)` with the extracted visitor -/
+def checkedMsg (bo : ByteOrder) (buf : List Nat) (m : CMsg) (n : Nat) : Result :=
+  Skel.runMsg Tie.extractedOps bo buf none m n
+
+/-- `sbepp::size_bytes_checked(group_view, n)` with the extracted visitor -/
+def checkedGroup (bo : ByteOrder) (buf : List Nat) (g : CGroup) (n : Nat) : Result :=
+  Skel.runGroup Tie.extractedOps bo buf none g n
+
+/-- the extracted code is the model the theorems of this file are about -/
+theorem checked_model_is_extracted (bo : ByteOrder) (buf : List Nat) (m : CMsg) (g : CGroup) (n : Nat) :
+    checkedMsg bo buf m n = runMsg bo buf none m n ∧ checkedGroup bo buf g n = runGroup bo buf none g n :=
+  ⟨Tie.runMsg_extracted bo buf none m n, Tie.runGroup_extracted bo buf none g n⟩
+
+theorem checked_valid_iff_partial_extracted (bo : ByteOrder) (m : CMsg) (buf : List Nat) (n : Nat) (hb : IsBytes buf)
+    (hn : NarrowL m.level) :
+    ValidIff (checkedMsg bo buf m n) (parseMsg bo buf n m.hdrSize m.blOff m.blSize m.level.erase) := by
+  unfold checkedMsg; rw [Tie.runMsg_extracted]; exact checked_valid_iff_partial bo m buf n hb hn
+
+theorem checked_group_valid_iff_partial_extracted (bo : ByteOrder) (g : CGroup) (buf : List Nat) (n : Nat)
+    (hb : IsBytes buf) (hn : NarrowG g) :
+    ValidIff (checkedGroup bo buf g n) (parseGroup bo buf n g.erase) := by
+  unfold checkedGroup; rw [Tie.runGroup_extracted]; exact checked_group_valid_iff_partial bo g buf n hb hn
+
+theorem checked_reads_below_n_partial_extracted (bo : ByteOrder) (m : CMsg) (buf : List Nat) (n : Nat) (hb : IsBytes buf)
+    (hn : NarrowL m.level) (hi : InsideL m.level) (hh : m.blOff + m.blSize ≤ m.hdrSize) (sz : Nat)
+    (hfit : sparseMsg bo buf n m.hdrSize m.blOff m.blSize m.level.erase = some sz) :
+    ∀ a ∈ (checkedMsg bo buf m n).reads, a.stop ≤ n := by
+  unfold checkedMsg; rw [Tie.runMsg_extracted]; exact checked_reads_below_n_partial bo m buf n hb hn hi hh sz hfit
+
+theorem checked_group_reads_below_n_partial_extracted (bo : ByteOrder) (g : CGroup) (buf : List Nat) (n : Nat)
+    (hb : IsBytes buf) (hn : NarrowG g) (hi : InsideG g) (sz : Nat) (hfit : sparseG bo buf n g.erase 0 = some sz) :
+    ∀ a ∈ (checkedGroup bo buf g n).reads, a.stop ≤ n := by
+  unfold checkedGroup; rw [Tie.runGroup_extracted]; exact checked_group_reads_below_n_partial bo g buf n hb hn hi sz hfit
+
+theorem checked_reads_slack_extracted (bo : ByteOrder) (m : CMsg) (buf : List Nat) (n : Nat) :
+    ∀ a ∈ (checkedMsg bo buf m n).reads, a.stop ≤ n + m.slack := by
+  unfold checkedMsg; rw [Tie.runMsg_extracted]; exact checked_reads_slack bo m buf n
+
+theorem checked_group_reads_slack_extracted (bo : ByteOrder) (g : CGroup) (buf : List Nat) (n : Nat) :
+    ∀ a ∈ (checkedGroup bo buf g n).reads, a.stop ≤ n + g.slack := by
+  unfold checkedGroup; rw [Tie.runGroup_extracted]; exact checked_group_reads_slack bo g buf n
+
+theorem checked_work_accounted_extracted (bo : ByteOrder) (m : CMsg) (buf : List Nat) (n : Nat) :
+    (checkedMsg bo buf m n).steps ≤ m.level.wmax * (n + 2 + (checkedMsg bo buf m n).zeroEntries) := by
+  unfold checkedMsg; rw [Tie.runMsg_extracted]; exact checked_work_accounted bo m buf n
+
+theorem checked_group_work_accounted_extracted (bo : ByteOrder) (g : CGroup) (buf : List Nat) (n : Nat) :
+    (checkedGroup bo buf g n).steps ≤ g.wmax * (n + 2 + (checkedGroup bo buf g n).zeroEntries) := by
+  unfold checkedGroup; rw [Tie.runGroup_extracted]; exact checked_group_work_accounted bo g buf n
+
+/-- the extracted definitions compute (non-vacuity: the complete image, a truncation, and the three refutation
+    witnesses, evaluated through the generated member functions) -/
+example : (checkedMsg .little exBuf exMsg 18).valid = true ∧ (checkedMsg .little exBuf exMsg 18).size = 18 ∧
+    (checkedMsg .little exBuf exMsg 18).steps = 10 ∧ (checkedMsg .little exBuf exMsg 17).valid = false := by decide
+example : (checkedMsg .little wideBuf wideMsg 10).valid = true ∧ (checkedMsg .little wideBuf wideMsg 10).size = 9 := by decide
+example : (checkedMsg .little dataBuf dataMsg 4).firstOver 4 = some ⟨.dataLength, 4, 1, 1⟩ := by decide
+example : (checkedMsg .little shortBuf shortMsg 4).firstOver 4 = some ⟨.field, 4, 4, 1⟩ := by decide
 
 end Sbepp.Properties.C06
